@@ -64,12 +64,45 @@ def replay(ctx, binp, path, label):
     return check_stream(ctx, label, os.path.join(ctx.work, "replay.ops"), os.path.join(ctx.work, "replay.impl"))
 
 
+RACE_WHAT = {
+    "unregister-gc-vs-register": "a producer that REGISTERed an #ephemeral channel and was answered OK is not registered: "
+                                 "a concurrent UNREGISTER of the last other producer deleted the key in between",
+    "unregister-gc-vs-register-topic": "a producer that REGISTERed an #ephemeral topic and was answered OK is missing from "
+                                       "the topic: a concurrent UNREGISTER of the last other producer deleted the key",
+    "register-vs-topic-delete": "REGISTER topic channel overlapping /topic/delete left the producer registered for the "
+                                "topic but not for the channel (no serial order gives that)",
+}
+
+
+def races(ctx, binp, only=None):
+    """known findings (concurrency): replayed on every run, reported only if they reproduce"""
+    rc, out = e4.run_test(ctx, binp, "TestVerifE4Races", {"VERIF_MS": ctx.budget(1200, 4000)}, 300)
+    seen = {}
+    for l in out.splitlines():
+        w = l.split()
+        if len(w) == 4 and w[0] == "RACE":
+            seen[w[1]] = (int(w[2].split("=")[1]), int(w[3].split("=")[1]))
+    ctx.corr["races"] = {k: "bad=%d rounds=%d" % v for k, v in seen.items()}
+    if rc != 0:
+        ctx.log("race harness failed:\n" + out[-1500:])
+        return ["race harness exit %s" % rc]
+    for name, (bad, rounds) in seen.items():
+        if only and name not in only:
+            continue
+        ctx.evaluations += rounds
+        if bad > 0:
+            ctx.violation("race:" + name, RACE_WHAT.get(name, name) + " (%d of %d rounds)" % (bad, rounds),
+                          "race %s\n# run: ./check C14 --replay corpus/C14/known/races.ops\n" % name)
+    return []
+
+
 def run(ctx):
     ctx.trusted += e4.TRUSTED
     ctx.assumptions += [
         "Op.modelled: POST /topic/tombstone?topic=* is outside the model (its effect depends on Go map order)",
         "handler calls do not overlap in time (sequential histories; the concurrent leg checks quiescent points "
-        "of histories whose concurrent operations touch disjoint names)",
+        "of histories whose concurrent operations touch disjoint names). For overlapping calls on the SAME names the "
+        "statement is false (Lean: concurrent_*_linearizable_false; known findings race:*)",
     ]
     ctx.rule = ("every history of length L over the full alphabet (2 producers x {IDENTIFY, PING, disconnect, "
                 "REGISTER/UNREGISTER x 2 topics (one #ephemeral) x {no channel, c, d#ephemeral}} + create/delete "
@@ -80,11 +113,17 @@ def run(ctx):
     e4.lean_side(ctx, PROPS)
     broken = []
     binp = e4.build_harness(ctx, "e4c14")
-    if binp and ctx.replay_in:
+    first = e4.read_lines(ctx.replay_in)[:10] if ctx.replay_in else []
+    if binp and ctx.replay_in and any(l.startswith("race ") for l in first):
+        names = [l.split()[1] for l in e4.read_lines(ctx.replay_in) if l.startswith("race ")]
+        broken += races(ctx, binp, only=names)
+        print("races: %s" % ctx.corr.get("races"))
+    elif binp and ctx.replay_in:
         broken += replay(ctx, binp, os.path.abspath(ctx.replay_in), "replay")
         for l in e4.read_lines(os.path.join(ctx.work, "replay.impl")):
             print("impl: " + l[:400])
     elif binp:
+        broken += races(ctx, binp)
         for f in sorted(glob.glob(os.path.join(ROOT, "corpus", "C14", "*.ops"))):
             broken += replay(ctx, binp, f, "corpus:" + os.path.basename(f))
         nsh = 8
